@@ -4,6 +4,8 @@
 package mod_static
 
 import (
+	"net/url"
+
 	"github.com/bfenetworks/bfe/bfe_basic"
 	"github.com/bfenetworks/bfe/bfe_basic/condition"
 	"github.com/bfenetworks/bfe/bfe_http"
@@ -52,6 +54,74 @@ func VerifServeHistory(enableCompress bool, confs []VerifStaticConf, req *bfe_ba
 			conf.Config[product] = &rl
 		}
 		m.ruleTable.Update(conf)
+	}
+	ret, resp := m.staticFileHandler(req)
+	return ret, resp, nil
+}
+
+// VerifServeFiles drives the module the way the server does after start-up and hot reloads: every path in
+// rulePaths goes through the real loadConfData (StaticConfLoad: JSON decoding, StaticConfCheck / ActionFileCheck,
+// condition.Build, then StaticRuleTable.Update; a rejected file leaves the table alone), every path in mimePaths
+// through the real loadMimeType; then the real staticFileHandler runs.  loads holds one '1'/'0' per load.
+func VerifServeFiles(enableCompress bool, rulePaths, mimePaths []string, req *bfe_basic.Request) (string, int, *bfe_http.Response) {
+	m := NewModuleStatic()
+	m.conf = &ConfModStatic{}
+	m.conf.Basic.EnableCompress = enableCompress
+	loads := make([]byte, 0, len(rulePaths)+len(mimePaths)+1)
+	bit := func(err error) byte {
+		if err == nil {
+			return '1'
+		}
+		return '0'
+	}
+	for _, p := range rulePaths {
+		loads = append(loads, bit(m.loadConfData(url.Values{"path": []string{p}})))
+	}
+	loads = append(loads, '/')
+	for _, p := range mimePaths {
+		loads = append(loads, bit(m.loadMimeType(url.Values{"path": []string{p}})))
+	}
+	ret, resp := m.staticFileHandler(req)
+	return string(loads), ret, resp
+}
+
+// VerifStaticPre is an earlier request of a history: it is served by the same module instance right after
+// configuration number After (1-based; 0 = before the first load); its response is read and discarded.
+type VerifStaticPre struct {
+	After int
+	Req   *bfe_basic.Request
+}
+
+// VerifServeHistory2 is VerifServeHistory with earlier requests served in between.
+func VerifServeHistory2(enableCompress bool, confs []VerifStaticConf, pre []VerifStaticPre, req *bfe_basic.Request) (int, *bfe_http.Response, error) {
+	m := NewModuleStatic()
+	m.conf = &ConfModStatic{}
+	m.conf.Basic.EnableCompress = enableCompress
+	runPre := func(i int) {
+		for _, p := range pre {
+			if p.After == i {
+				if _, resp := m.staticFileHandler(p.Req); resp != nil && resp.Body != nil {
+					resp.Body.Close()
+				}
+			}
+		}
+	}
+	runPre(0)
+	for i, c := range confs {
+		conf := StaticConf{Version: c.Version, Config: make(ProductRules)}
+		for product, rs := range c.Products {
+			rl := make(RuleList, 0, len(rs))
+			for _, r := range rs {
+				cond, err := condition.Build(r.Cond)
+				if err != nil {
+					return 0, nil, err
+				}
+				rl = append(rl, StaticRule{Cond: cond, Action: Action{Cmd: ActionBrowse, Params: []string{r.Root, r.DefaultFile}}})
+			}
+			conf.Config[product] = &rl
+		}
+		m.ruleTable.Update(conf)
+		runPre(i + 1)
 	}
 	ret, resp := m.staticFileHandler(req)
 	return ret, resp, nil
